@@ -166,7 +166,7 @@ class DiameterEapAnswer(DiameterEap):
         AvpGenDef("eap_key_name", AVP_EAP_KEY_NAME),
         AvpGenDef("multi_round_time_out", AVP_MULTI_ROUND_TIME_OUT),
         AvpGenDef("accounting_eap_auth_method", AVP_ACCOUNTING_EAP_AUTH_METHOD),
-        AvpGenDef("service_stype", AVP_SERVICE_TYPE),
+        AvpGenDef("service_type", AVP_SERVICE_TYPE),
         AvpGenDef("state_class", AVP_CLASS),
         AvpGenDef("configuration_token", AVP_CONFIGURATION_TOKEN),
         AvpGenDef("acct_interim_interval", AVP_ACCT_INTERIM_INTERVAL),
@@ -296,7 +296,7 @@ class DiameterEapRequest(DiameterEap):
         AvpGenDef("user_name", AVP_USER_NAME),
         AvpGenDef("eap_payload", AVP_EAP_PAYLOAD),
         AvpGenDef("eap_key_name", AVP_EAP_KEY_NAME),
-        AvpGenDef("service_stype", AVP_SERVICE_TYPE),
+        AvpGenDef("service_type", AVP_SERVICE_TYPE),
         AvpGenDef("state", AVP_STATE),
         AvpGenDef("authorization_lifetime", AVP_AUTHORIZATION_LIFETIME),
         AvpGenDef("auth_grace_period", AVP_AUTH_GRACE_PERIOD),
